@@ -23,7 +23,7 @@ impl<'de> Deserialize<'de> for Uplink {
         D: Deserializer<'de>,
     {
         use core::fmt;
-        use serde::de::{self, MapAccess, Visitor};
+        use serde::de::{self, MapAccess, SeqAccess, Visitor};
 
         #[derive(Deserialize)]
         #[serde(field_identifier, rename_all = "snake_case")]
@@ -40,6 +40,21 @@ impl<'de> Deserialize<'de> for Uplink {
 
             fn expecting(&self, formatter: &mut fmt::Formatter<'_>) -> fmt::Result {
                 formatter.write_str("struct Uplink")
+            }
+
+            // Formats that do not describe themselves (postcard, bincode, ...) hand a struct over
+            // as the sequence of its fields, in the order `serialize` wrote them.
+            fn visit_seq<V>(self, mut seq: V) -> Result<Uplink, V::Error>
+            where
+                V: SeqAccess<'de>,
+            {
+                let confirmed: bool =
+                    seq.next_element()?.ok_or_else(|| de::Error::invalid_length(0, &self))?;
+                let pending_len: u8 =
+                    seq.next_element()?.ok_or_else(|| de::Error::invalid_length(1, &self))?;
+                let pending_data: [u8; FOPTS_MAX_LEN] =
+                    seq.next_element()?.ok_or_else(|| de::Error::invalid_length(2, &self))?;
+                build(confirmed, pending_len, pending_data)
             }
 
             fn visit_map<V>(self, mut map: V) -> Result<Uplink, V::Error>
@@ -79,17 +94,25 @@ impl<'de> Deserialize<'de> for Uplink {
                 let pending_data =
                     pending_data.ok_or_else(|| de::Error::missing_field("pending_data"))?;
 
-                if pending_len as usize > FOPTS_MAX_LEN {
-                    return Err(de::Error::custom("pending_len exceeds maximum size"));
-                }
-
-                let mut pending = heapless::Vec::new();
-                pending
-                    .extend_from_slice(&pending_data[..pending_len as usize])
-                    .map_err(|_| de::Error::custom("failed to create heapless::Vec"))?;
-
-                Ok(Uplink { pending, confirmed })
+                build(confirmed, pending_len, pending_data)
             }
+        }
+
+        fn build<E: de::Error>(
+            confirmed: bool,
+            pending_len: u8,
+            pending_data: [u8; FOPTS_MAX_LEN],
+        ) -> Result<Uplink, E> {
+            if pending_len as usize > FOPTS_MAX_LEN {
+                return Err(de::Error::custom("pending_len exceeds maximum size"));
+            }
+
+            let mut pending = heapless::Vec::new();
+            pending
+                .extend_from_slice(&pending_data[..pending_len as usize])
+                .map_err(|_| de::Error::custom("failed to create heapless::Vec"))?;
+
+            Ok(Uplink { pending, confirmed })
         }
 
         deserializer.deserialize_struct(
